@@ -315,11 +315,11 @@ func mentionsSuffix(m map[string]bool, suffix string) bool {
 // enforce, must cover that - otherwise a stored pair exists that cannot be read, proved or found against its root.
 // Constants are read from the type checker (go/constant), the relations are frozen here with their reason.
 type constRel struct {
-	id             string
-	lhsPkg, lhs    string
-	rhsPkg, rhs    string
-	plus           int64
-	why            string
+	id          string
+	lhsPkg, lhs string
+	rhsPkg, rhs string
+	plus        int64
+	why         string
 }
 
 var constRels = []constRel{
@@ -544,7 +544,7 @@ func ruleUnsignedWindow(c *Ctx, pkgs ...string) {
 }
 
 var unsignedDiffOK = map[string]string{
-	"pkg/core.(*Blockchain).tryRunGC#syncP-mtb": "int64(syncP-mtb) wraps to a value above 2^31 while the chain is shorter than MaxTraceableBlocks plus two sync intervals; min() then keeps tgtBlock = height-MaxTraceableBlocks, so removal is merely not aligned to the older sync point (peers syncing from that point cannot get their first blocks here - an observation recorded in DESIGN.md, outside the listed properties: the collector still never passes height-MaxTraceableBlocks)",
+	"pkg/core.(*Blockchain).tryRunGC#syncP-mtb":          "int64(syncP-mtb) wraps to a value above 2^31 while the chain is shorter than MaxTraceableBlocks plus two sync intervals; min() then keeps tgtBlock = height-MaxTraceableBlocks, so removal is merely not aligned to the older sync point (peers syncing from that point cannot get their first blocks here - an observation recorded in DESIGN.md, outside the listed properties: the collector still never passes height-MaxTraceableBlocks)",
 	"pkg/core/statesync.(*Module).Init#p-s.syncInterval": "p >= 2*syncInterval on this path: the function returns above when p < 2*s.syncInterval",
 }
 
@@ -553,7 +553,7 @@ var unsignedDiffOK = map[string]string{
 // Faun, voters count, empty contract values) into "not found". Sources: dao.Simple.GetStorageItem and the BoltDB
 // bucket Get. Decided for direct uses and for single-definition locals.
 var absentSources = map[string]bool{
-	"pkg/core/dao.(*Simple).GetStorageItem": true,
+	"pkg/core/dao.(*Simple).GetStorageItem":    true,
 	"github.com/nspcc-dev/bbolt.(*Bucket).Get": true,
 }
 
